@@ -1,6 +1,7 @@
 package interpreter
 
 import (
+	"math/big"
 	"slices"
 
 	"github.com/formancehq/numscript/internal/parser"
@@ -97,7 +98,12 @@ func (st *programState) runBalancesQuery() error {
 	for account, fetchedBalances := range balances {
 		mergedAccount := defaultMapGet(merged, account, func() AccountBalance { return AccountBalance{} })
 		for asset, amount := range fetchedBalances {
-			mergedAccount[asset] = amount
+			if amount == nil {
+				continue
+			}
+			// copy: the cache is updated in place after each statement, while the
+			// maps and numbers handed out by the store belong to the caller
+			mergedAccount[asset] = new(big.Int).Set(amount)
 		}
 	}
 	for account, cachedBalances := range st.CachedBalances {
